@@ -12,6 +12,7 @@ import XtModel.Model.MsgpackSize
 import XtModel.Model.MsgpackCodec
 import XtModel.Model.CliWire
 import XtModel.Model.Stream
+import XtModel.Model.Bridge
 
 /-!
 Native driver: one case per input line, one answer per output line
@@ -554,6 +555,106 @@ def stream (fs : List String) : String :=
     | _, _, _, _ => "bad-case"
   | _ => "bad-case"
 
+/-! ### bridge: `j2m <hex> <slice|reader>`, `m2j <hex> <slice|reader>`
+
+Answer: `<verdict> <output hex>`.  Floats go through `Bridge.markerIO`: a JSON
+float becomes the binary64 with bits 0 (the harness zeroes the payload of every
+float 64 in the implementation's output), a finite MessagePack float is written
+as the token `0.5`; JSON text is then canonicalised on both sides by
+`maskFloats`: every number token with a `.`, `e` or `E` becomes `F`, and so does
+the content of every string that consists of number characters only and has one
+of those three (a float in key position is written as a quoted float, which the
+text does not tell from a string).  MessagePack → JSON answers include what was
+written of a failing document (`msgpack2jsonX`).  The source error kind is
+reported for JSON sources only (for MessagePack sources it is the `msgdecode`
+engine's subject). -/
+namespace BR
+open Xt.Bridge
+
+def modeOf : String → Option Mode
+  | "slice" => some .slice
+  | "reader" => some .reader
+  | _ => none
+
+def serTok : Xt.Serde.SErr → String
+  | .own n => s!"ser:{n}"
+  | .custom m => "ser:custom:" ++ m.replace " " "_"
+
+/-- Finite floats as the token `0.5`. -/
+def tokenIO : FloatIO := ⟨fun _ => 0, fun _ => [0x30, 0x2E, 0x35], fun _ => [0x30, 0x2E, 0x35]⟩
+
+def isNumCh (b : Nat) : Bool :=
+  (0x30 ≤ b && b ≤ 0x39) || b == 0x2B || b == 0x2D || b == 0x2E || b == 0x65 || b == 0x45
+
+def hasFloatCh (bs : List Nat) : Bool := bs.any fun b => b == 0x2E || b == 0x65 || b == 0x45
+
+/-- The raw content of a string up to its closing quote (escapes kept as
+written), whether it was closed, and what follows. -/
+def strContent : List Nat → List Nat → List Nat × Bool × List Nat
+  | [], acc => (acc.reverse, false, [])
+  | 0x22 :: rest, acc => (acc.reverse, true, rest)
+  | 0x5C :: c :: rest, acc => strContent rest (c :: 0x5C :: acc)
+  | b :: rest, acc => strContent rest (b :: acc)
+
+def spanNum : List Nat → List Nat → List Nat × List Nat
+  | [], acc => (acc.reverse, [])
+  | b :: rest, acc => if isNumCh b then spanNum rest (b :: acc) else (acc.reverse, b :: rest)
+
+partial def maskGo : List Nat → List Nat → List Nat
+  | [], acc => acc.reverse
+  | b :: rest, acc =>
+    if b == 0x22 then
+      let (content, closed, rest') := strContent rest []
+      let c := if !content.isEmpty && content.all isNumCh && hasFloatCh content then [0x46] else content
+      maskGo rest' ((if closed then [0x22] else []) ++ (c.reverse ++ (0x22 :: acc)))
+    else if b == 0x2D || (0x30 ≤ b && b ≤ 0x39) then
+      let (tok, rest') := spanNum (b :: rest) []
+      maskGo rest' ((if hasFloatCh tok then [0x46] else tok).reverse ++ acc)
+    else maskGo rest (b :: acc)
+
+def maskFloats (bs : List Nat) : List Nat := maskGo bs []
+
+def bigInput : Nat := 3000
+
+def bridge (fs : List String) : String :=
+  match fs with
+  | ["j2m", hex, mode] =>
+    match parseHex hex, modeOf mode with
+    | some bs, some m =>
+      let r := json2msgpack markerIO m bs
+      let v := match r.verdict with
+        | .ok => "ok"
+        | .srcJson e => "src:" ++ errName e
+        | .srcMsgpack _ => "src"
+        | .ser e => serTok e
+      v ++ " " ++ toHex r.out
+    | _, _ => "bad-case"
+  | ["m2j", hex, mode] =>
+    match parseHex hex, modeOf mode with
+    | some bs, some m =>
+      -- The model's slice loop re-slices its input for every value (as the code
+      -- does) and is quadratic on `List`s.  For a long input the reader loop is
+      -- run first: unless it ends in a source failure, the slice answer is the
+      -- same (`Xt.Props.Fidelity.m2j_slice_answer_eq_reader`: same documents,
+      -- same output, `ok` / the same refusal together, and `msgpack2jsonX` is
+      -- `msgpack2json` then); only on a source failure is the slice loop run.
+      let r :=
+        if m == .slice && bs.length > bigInput then
+          match msgpack2json tokenIO .reader bs with
+          | ⟨_, .srcMsgpack _⟩ => msgpack2jsonX tokenIO .slice bs
+          | r => r
+        else msgpack2jsonX tokenIO m bs
+      let v := match r.verdict with
+        | .ok => "ok"
+        | .srcJson _ => "src"
+        | .srcMsgpack _ => "src"
+        | .ser e => serTok e
+      v ++ " " ++ toHex (maskFloats r.out)
+    | _, _ => "bad-case"
+  | _ => "bad-case"
+
+end BR
+
 def answer (fs : List String) : String :=
   match fs with
   | "encdetect" :: _ | "reencode" :: _ | "reencstream" :: _ => encoding fs
@@ -570,6 +671,7 @@ def answer (fs : List String) : String :=
   | "cli" :: _ | "noflush" :: _ | "plan" :: _ | "ext" :: _ | "stdinpath" :: _ | "fmtname" :: _ | "pipecheck" :: _
   | "lexopt" :: _ => Xt.CliWire.answer fs
   | "lagok" :: _ | "lagat" :: _ | "loopmodel" :: _ => stream fs
+  | "j2m" :: _ | "m2j" :: _ => BR.bridge fs
   | _ => "bad-engine"
 
 partial def loop (h : IO.FS.Stream) (out : IO.FS.Stream) : IO Unit := do
